@@ -28,6 +28,10 @@ Enumerated completely:
   * call histories: every single call / ordered pair (thorough: triple) of calculate_origin, shift_origin_to (corner and
     other targets), fit_origin_background and preprocess on models sharing a detector shape, modules re-imported before each
     history, the LAST call judged ("a result must not depend on earlier calls"), inputs bit-identical afterwards.
+  * CONTENT of the detector mask: 12 masks (binary incl. all-ones / single open pixel / one excluded pixel; fractional: constant 0.5,
+    soft disc, soft half plane, ramp, seeded weights, weights above one; integer weights 0..3) x mask dtype {bool, uint8, int64, float32,
+    float64 where the values are exact} x memory order x the dataset model's vectorised AND looped path (mask argument) and both classes
+    on intensity x mask (every batch size): the float64 intensity x mask weighted mean, and every path against every other.
 Oracle: float64 weighted means in (row, column) order; np.roll.
 """
 from __future__ import annotations
@@ -53,7 +57,9 @@ CLAIM = (
     "pattern for every integer origin of the detector, uniform or per pattern, at every batch size, also on detector lengths "
     "with large prime factors; the dataset model's centred amplitudes/intensities for integer fitted origins equal the same roll "
     "and agree with the origin model; the centre of mass is the weighted mean of the stored values for every accepted input dtype "
-    "and memory layout on every path; no result depends on earlier calls (call histories on freshly imported modules). Exploration is the right level: "
+    "and memory layout on every path; under a detector mask of ANY content (binary, constant, soft edge, ramp, weights above one; bool / integer / "
+    "float dtypes) the dataset model's vectorised and looped paths return the intensity x mask weighted mean and agree with each other and with "
+    "both classes fed the product; no result depends on earlier calls (call histories on freshly imported modules). Exploration is the right level: "
     "the only schedule freedom is the batch size and it is enumerated completely; everything else is a configuration lattice."
 )
 NOTE = (
@@ -70,7 +76,9 @@ RULE = (
     "not the identity; distinct = distinct (configuration, batch size, path). Shift parts also on detectors {13,16,17,26}x{8,13} "
     "both ways (scan (2,3)); shift_array: every integer shift x 2 branches; integer-origin roll: scans x detectors x 3 origin/fit "
     "kinds x both classes x (vectorized, bilinear); call histories: all singles and ordered pairs (thorough: triples) over 20 calls; object histories: every history of length 2..3 (thorough 4) over 13 events incl. copies and feed-back; intensity scale (8 powers of ten x float32/float64) x all paths; origin range [-2H,2H]x[-2W,2W] for origins and target; input dtype (8, three count levels) x layout (4) "
-    "x 2 scans x 2 detectors x all paths and batch sizes."
+    "x 2 scans x 2 detectors x all paths and batch sizes; mask content: 12 masks (5 binary, 6 fractional incl. weights above one, 1 integer 0..3) x "
+    "their dtypes (bool/uint8/int64/float32/float64 where exact) x order (C, F for float32) x 2 scans x 2 detectors x 2 data kinds x "
+    "{mask argument vectorised, looped; intensity x mask: calculate_origin every batch size, preprocess both paths}; non-trivial = mask is not all ones."
 )
 
 # ----------------------------------------------------------------------------- tolerances
@@ -1590,6 +1598,196 @@ def dataset_copy_case(how, which, seed, t=None, verbose=False):
     return fails
 
 
+# ----------------------------------------------------------------------------- part 11: CONTENT of the detector mask x every code path
+# A mask is a weight per detector pixel, not only an open/closed flag: the centre of mass under a mask m is the mean coordinate
+# weighted by intensity x m, whatever the values of m (0/1, a constant, a soft edge, a ramp, weights above one) and whatever the
+# dtype / memory order the mask arrives in, and it is the same on the vectorised and the looped path of the dataset model
+# (mask argument of _set_intensities_com) and on both classes fed with the product intensity x m (every batch size).
+# A binary alphabet cannot tell m from m*m, nor "mask in the numerator only" from "mask in both sums" when m is constant.
+MC_SCANS = [(2, 3), (1, 5)]
+MC_DETS = [(6, 8), (7, 7)]
+MC_KINDS = ["ramp", "seeded"]
+MC_BINARY = ["all_ones", "half_plane", "disc", "single_open_pixel", "one_excluded_pixel"]
+MC_FRACTIONAL = ["constant_half", "soft_disc", "soft_half_plane", "ramp_weights", "seeded_weights", "weights_above_one"]
+MC_INTEGER = ["integer_weights_0_to_3"]
+MC_MASKS = MC_BINARY + MC_FRACTIONAL + MC_INTEGER
+MC_DTYPES = {**{k: ["bool", "uint8", "float32", "float64"] for k in MC_BINARY}, **{k: ["float32", "float64"] for k in MC_FRACTIONAL}, **{k: ["uint8", "int64", "float32", "float64"] for k in MC_INTEGER}}
+MC_ORDERS = ["C", "F"]  # memory order of the mask array (F only for float32: the dtype the library keeps as it is)
+
+
+def mask_content(det, name, seed):
+    """float64 weights >= 0 of the detector mask `name` (at least one open pixel; exactly representable in every dtype listed for it)."""
+    H, W = det
+    kr, kc = np.mgrid[:H, :W]
+    if name == "all_ones":
+        m = np.ones(det)
+    elif name == "half_plane":
+        m = (2 * kr + kc <= 12).astype(np.float64)
+    elif name == "disc":
+        m = ((kr - 2.5) ** 2 + (kc - 2.5) ** 2 <= 2.6**2 + 1e-9).astype(np.float64)
+    elif name == "single_open_pixel":
+        m = np.zeros(det)
+        m[2, 3] = 1.0
+    elif name == "one_excluded_pixel":
+        m = np.ones(det)
+        m[1, 4] = 0.0
+    elif name == "constant_half":
+        m = np.full(det, 0.5)
+    elif name == "soft_disc":  # 1 inside, a ring of fractional weights, 0 outside
+        m = np.clip(3.1 - np.sqrt((kr - 2.5) ** 2 + (kc - 2.5) ** 2), 0.0, 1.0)
+    elif name == "soft_half_plane":  # weights {0, .25, .5, .75, 1}
+        m = np.clip((13.0 - 2 * kr - kc) / 4.0, 0.0, 1.0)
+    elif name == "ramp_weights":  # strictly inside (0, 1], no closed pixel
+        m = (1.0 + kr + 2 * kc) / (1.0 + (H - 1) + 2 * (W - 1))
+    elif name == "seeded_weights":
+        m = 0.05 + 0.9 * np.random.default_rng([seed, 1811, H, W]).random(det)
+    elif name == "weights_above_one":  # {0, .5, .., 3.5}
+        m = 0.5 * ((kr + 2 * kc) % 8)
+    elif name == "integer_weights_0_to_3":
+        m = ((kr + 2 * kc) % 4).astype(np.float64)
+    else:
+        raise ValueError(name)
+    return m.astype(np.float32).astype(np.float64)  # the values every float dtype of the alphabet stores exactly
+
+
+def maskcontent_case(case, verbose=False):
+    """case = {scan, det, kind, mask, seed}: the mask in every dtype / order through both dataset paths (private mask seam), and
+    intensity x mask through CenterOfMassOriginModel (every batch size) and the public preprocess (both paths)."""
+    from quantem.diffractive_imaging.dataset_models import PtychographyDatasetRaster
+    from quantem.diffractive_imaging.origin_models import CenterOfMassOriginModel
+
+    scan, det, kind, mname, seed = tuple(case["scan"]), tuple(case["det"]), case["kind"], case["mask"], case["seed"]
+    sm = seams()
+    N = scan[0] * scan[1]
+    raw = make_data(scan, det, kind, seed)
+    m64 = mask_content(det, mname, seed)
+    fractional = bool(np.any((m64 != 0.0) & (m64 != 1.0)))
+    if m64.min() < 0 or not m64.max() > 0 or fractional != (mname not in MC_BINARY):
+        raise Broken(f"mask alphabet member {mname} on detector {det} is not what its name says")
+    er, ec = oracle_com(raw, m64)  # float64 intensity x mask weighted mean coordinate
+    pre = np.ascontiguousarray((raw.astype(np.float64) * m64).astype(np.float32))  # what the mask-less public paths are given
+    pr_, pc_ = oracle_com(pre, None)
+    if max(float(np.max(np.abs(pr_ - er))), float(np.max(np.abs(pc_ - ec)))) > 1e-6:
+        raise Broken(f"mask-content data builder: rounding intensity x mask to float32 moves the centre of mass by more than 1e-6 px ({case})")
+    fails, points = [], []
+    base = {"part": "maskcontent", "scan": list(scan), "det": list(det), "kind": kind, "mask": mname, "seed": seed}
+    desc = f"mask {mname} (weights {float(m64.min()):g} .. {float(m64.max()):g}, {'fractional' if fractional else 'binary'}) scan {scan} det {det} data {kind}"
+
+    def dev(got_r, got_c):
+        got_r = np.asarray(got_r, dtype=np.float64).reshape(scan)
+        got_c = np.asarray(got_c, dtype=np.float64).reshape(scan)
+        with np.errstate(invalid="ignore"):
+            d = max(float(np.max(np.abs(got_r - er))), float(np.max(np.abs(got_c - ec))))
+        d = d if np.isfinite(d) else float("inf")
+        ix = np.unravel_index(int(np.nanargmax(np.nan_to_num(np.abs(got_r - er) + np.abs(got_c - ec), nan=np.inf))), scan)
+        return d, f"pattern {tuple(int(i) for i in ix)}: got (row {got_r[ix]:.5f}, col {got_c[ix]:.5f}), expected (row {er[ix]:.5f}, col {ec[ix]:.5f})", np.stack([got_r, got_c])
+
+    def attempt(path, fn, cls_extra, extra):
+        try:
+            return fn()
+        except Broken:
+            raise
+        except Exception as e:
+            fails.append((dict({"relation": "path_runs", "path": path}, **cls_extra), dict(base, path=path, **extra), f"{path} {extra} raised {type(e).__name__}: {str(e)[:200]} on {desc}"))
+            if verbose:
+                print(f"    {path:46s} {str(extra):44s} raised {type(e).__name__}: {e}")
+            return None
+
+    res = {}
+    # (a) the mask ARGUMENT of the dataset model, vectorised and looped, every dtype and memory order of the mask
+    if sm["dp_mask"]:
+        for dt in MC_DTYPES[mname]:
+            for order in MC_ORDERS if dt == "float32" else ["C"]:
+                marg = np.array(m64.astype(dt), order=order)
+                if not np.array_equal(marg.astype(np.float64), m64):
+                    raise Broken(f"mask {mname} is not representable in {dt}")
+                msnap = marg.copy()
+                for vec in (True, False):
+                    path = f"_set_intensities_com(dp_mask, vectorized_calculation={vec})"
+                    extra = {"mask_dtype": dt, "mask_order": order, "vectorized": vec}
+                    cls_x = {"mask_weights": "fractional" if fractional else "binary", "mask_dtype": dt}
+                    p = PtychographyDatasetRaster.from_dataset4dstem(make_ds(raw), verbose=0)
+                    if attempt(path, lambda: (p._set_intensities_com(raw.copy(), dp_mask=marg, fit_function="none", vectorized_calculation=vec), 1), cls_x, extra) is None:
+                        continue
+                    cm = np.asarray(p.com_measured, dtype=np.float64)
+                    d, where, g = dev(cm[0], cm[1])
+                    if not (d <= TOL_COM):
+                        fails.append((dict({"relation": "com_equals_mask_weighted_mean", "path": path}, **cls_x), dict(base, path=path, **extra), f"{path} with a {dt} ({order}-order) {desc}: centre of mass differs from the float64 intensity x mask weighted mean by {d:.3e} px; {where}"))
+                    if not (np.array_equal(marg, msnap) and marg.dtype == msnap.dtype):
+                        fails.append((dict({"relation": "inputs_unmodified", "path": path}, **cls_x), dict(base, path=path, **extra), f"{path} modified the {dt} mask array it was given ({desc})"))
+                    if verbose:
+                        print(f"    {path:46s} {str(extra):44s} max deviation {d:.3e} px")
+                    res[("seam", dt, order, vec)] = g
+                    points.append((["seam", dt, order, vec], fractional or mname != "all_ones"))
+                a, b = res.get(("seam", dt, order, True)), res.get(("seam", dt, order, False))
+                if a is not None and b is not None:
+                    with np.errstate(invalid="ignore"):
+                        d = float(np.max(np.abs(a - b)))
+                    if not (d <= TOL_COM):
+                        fails.append(({"relation": "paths_agree", "path": "_set_intensities_com(dp_mask) vectorized vs looped", "mask_weights": "fractional" if fractional else "binary", "mask_dtype": dt}, dict(base, path="agree", mask_dtype=dt, mask_order=order), f"vectorised and looped centre of mass under a {dt} {desc} disagree by {d:.3e} px"))
+    # (b) intensity x mask through the mask-less public paths: origin model at every batch size, preprocess on both paths
+    om = attempt("CenterOfMassOriginModel.from_dataset", lambda: CenterOfMassOriginModel.from_dataset(make_ds(pre)), {}, {})
+    if om is not None:
+        for bs in batch_sizes(N):
+            path = "CenterOfMassOriginModel.calculate_origin(intensity x mask)"
+            if attempt(path, lambda: (om.calculate_origin(bs), 1), {}, {"batch_size": bs}) is None:
+                continue
+            o = om.origin_measured.detach().cpu().numpy().astype(np.float64).reshape(*scan, 2)
+            d, where, g = dev(o[..., 0], o[..., 1])
+            if not (d <= TOL_COM):
+                fails.append(({"relation": "com_equals_mask_weighted_mean", "path": path, "mask_weights": "fractional" if fractional else "binary"}, dict(base, path=path, batch_size=bs), f"calculate_origin({bs}) on intensity x {desc}: centre of mass differs from the float64 weighted mean by {d:.3e} px; {where}"))
+            if verbose:
+                print(f"    {path:46s} {str({'batch_size': bs}):44s} max deviation {d:.3e} px")
+            if bs is None:
+                res["om"] = g
+            points.append((["om", bs], fractional or mname != "all_ones"))
+    for vec in (True, False) if sm["preprocess_vectorized"] else (True,):
+        path = f"preprocess(vectorized={vec}).com_measured(intensity x mask)"
+        r = attempt(path, lambda: run_preprocess(pre, vec, "none", sm["preprocess_vectorized"]), {}, {})
+        if r is None:
+            continue
+        d, where, g = dev(r[0][0], r[0][1])
+        if not (d <= TOL_COM):
+            fails.append(({"relation": "com_equals_mask_weighted_mean", "path": path, "mask_weights": "fractional" if fractional else "binary"}, dict(base, path=path), f"{path} on intensity x {desc}: centre of mass differs from the float64 weighted mean by {d:.3e} px; {where}"))
+        if verbose:
+            print(f"    {path:46s} {'':44s} max deviation {d:.3e} px")
+        res[("ds", vec)] = g
+        points.append((["ds", vec], fractional or mname != "all_ones"))
+    # (c) every path agrees with every other one (mask as argument = mask multiplied in beforehand; both classes; both paths)
+    ref_keys = [k for k in (("ds", True), ("ds", False), "om") if k in res]
+    for i, a in enumerate(ref_keys):
+        for b in ref_keys[i + 1 :]:
+            with np.errstate(invalid="ignore"):
+                d = float(np.max(np.abs(res[a] - res[b])))
+            if not (d <= TOL_COM):
+                name = f"{'calculate_origin' if a == 'om' else f'preprocess(vectorized={a[1]})'} vs {'calculate_origin' if b == 'om' else f'preprocess(vectorized={b[1]})'}"
+                fails.append(({"relation": "classes_agree" if "om" in (a, b) else "paths_agree", "path": name, "mask_weights": "fractional" if fractional else "binary"}, dict(base, path=name), f"{name} disagree by {d:.3e} px on intensity x {desc}"))
+    if "om" in res:
+        for k, g in res.items():
+            if isinstance(k, tuple) and k[0] == "seam":
+                with np.errstate(invalid="ignore"):
+                    d = float(np.max(np.abs(g - res["om"])))
+                if not (d <= TOL_COM):
+                    fails.append(({"relation": "mask_argument_equals_premultiplied_mask", "path": f"_set_intensities_com(dp_mask, vectorized_calculation={k[3]}) vs calculate_origin", "mask_weights": "fractional" if fractional else "binary", "mask_dtype": k[1]}, dict(base, path="agree", mask_dtype=k[1], mask_order=k[2], vectorized=k[3]), f"_set_intensities_com(dp_mask as {k[1]}, vectorized_calculation={k[3]}) and calculate_origin on intensity x mask disagree by {d:.3e} px ({desc})"))
+    return _tag(fails), points, fractional
+
+
+def eval_maskcontent(case):
+    t = Tally()
+    fails, points, fractional = maskcontent_case(case)
+    key0 = [case["scan"], case["det"], case["kind"], case["mask"]]
+    for key, nontriv in points:
+        t.case(key=key0 + key, nontrivial=nontriv, outcome=None)
+    for cls, sub, msg in fails:
+        t.fail(cls, sub, msg)
+    t.extra["mask_content_configurations"] += 1
+    t.extra["mask_content_points_fractional_mask"] += len(points) if fractional else 0
+    t.extra["mask_content_points_fractional_mask_looped_mask_argument"] += sum(1 for k, _ in points if fractional and k[0] == "seam" and k[3] is False)
+    if case["mask"] == "soft_disc" and case["kind"] == "ramp" and tuple(case["det"]) == (6, 8):
+        t.sample({"mask_content": key0, "paths_dtypes_and_batch_sizes": len(points)}, cap=1)
+    return t
+
+
 # ----------------------------------------------------------------------------- run / replay
 def run(ctx):
     warnings.simplefilter("ignore")
@@ -1695,6 +1893,14 @@ def run(ctx):
     mO = ctx.pmap(eval_object_history, OH_EVENTS, chunk=1, label="object histories", seed=ctx.seed, depth=odepth)
     fixed = [("saveload", h) for h in OH_SAVELOAD_HISTORIES] + [("dataset", (how, which)) for how in ("copy", "deepcopy", "pickle") for which in ("copy", "original")]
     mO2 = ctx.pmap(eval_object_history_fixed, fixed, chunk=1, label="save+load and dataset-model copies", seed=ctx.seed, scratch=ctx.scratch)
+    # content of the detector mask (fractional weights, constants, ramps, weights above one, binary) x dtype x order x every path
+    mc_items = [
+        {"part": "maskcontent", "scan": list(sc), "det": list(d), "kind": k, "mask": m, "seed": ctx.seed}
+        for sc, d, k, m in itertools.product(MC_SCANS, MC_DETS, MC_KINDS, MC_MASKS)
+    ]
+    mM = ctx.pmap(eval_maskcontent, mc_items, chunk=2, label="mask content")
+    if ctx.tally.nfails == 0 and sm["dp_mask"] and sm["preprocess_vectorized"] and mM.extra["mask_content_points_fractional_mask_looped_mask_argument"] < 2 * len(MC_FRACTIONAL) * len(MC_SCANS) * len(MC_DETS) * len(MC_KINDS):
+        raise Broken(f"mask-content part degenerate: {dict(mM.extra)}")
     if ctx.tally.nfails == 0 and (mO.extra["object_histories_with_a_copy"] < 300 or mO.extra["object_histories_with_feed_back"] < 100):
         raise Broken(f"object-history part degenerate: {dict(mO.extra)}")
     # vacuity guards only speak when nothing failed: a defect may legitimately cut an enumeration short (failing pipelines
@@ -1724,6 +1930,7 @@ def run(ctx):
             "input_dtype_members": "integer counts exact in every dtype; 'low' (pattern totals < 1000), 'mid' (odd multiples, totals of several thousand: float16 no longer adds them exactly) and 'high' (scaled per dtype: float16 totals exceed 65504, uint8 up to 240, uint16 up to 60000, int32/int64 up to 3e5 per pixel)",
             "input_layouts": LAYOUTS,
             "input_dtype_lattice": {"scans": [list(x) for x in DT_SCANS], "detectors": [list(x) for x in DT_DETS], "paths": "calculate_origin x every batch size, shift_origin_to x {None, 4} x {bilinear, nearest} vs np.roll, preprocess(vectorized=True/False).com_measured"},
+            "mask_content": {"masks": MC_MASKS, "mask_dtypes": MC_DTYPES, "mask_memory_orders": "C; F as well for float32", "scans": [list(x) for x in MC_SCANS], "detectors": [list(x) for x in MC_DETS], "data": MC_KINDS, "paths": "_set_intensities_com(dp_mask) vectorised and looped x every mask dtype/order; intensity x mask through calculate_origin x every batch size and preprocess(vectorized=True/False); all paths pairwise", "oracle": "float64 intensity x mask weighted mean coordinate (row, then column)"},
             "detector_shapes_large_prime_factors": [list(d) for d in DETS_BIG],
             "shift_array": "every integer shift |r|<H, |c|<W x {Fourier, bilinear} on all detector shapes",
             "integer_origin_roll": {"scans": [list(x) for x in io_scans], "origins_x_fit": ["constant/constant", "constant/plane", "planar/plane"], "paths": ["calculate_origin+fit_origin_background+shift_origin_to", "preprocess(vectorized, bilinear).centered_amplitudes/centered_intensities"]},
@@ -1750,6 +1957,9 @@ def run(ctx):
         dataset_model_copy_cases=int(mO2.extra["dataset_model_copy_cases"]),
         dataset_model_copy_kinds_not_supported_on_this_tree={k: int(mO2.extra[f"dataset_model_{k}_not_supported"]) for k in ("copy", "deepcopy", "pickle")},
         dtype_layout_points=int(mG.n),
+        mask_content_points=int(mM.n),
+        mask_content_points_fractional_mask=int(mM.extra["mask_content_points_fractional_mask"]),
+        mask_content_points_fractional_mask_looped_mask_argument=int(mM.extra["mask_content_points_fractional_mask_looped_mask_argument"]),
         dtype_configurations_accepted=accepted,
         dtype_configurations_rejected_by_the_library=rejected,
         call_history_depth=depth,
@@ -1794,6 +2004,9 @@ def replay(ctx, case):
         fails, _, _ = dtype_case(case, verbose=True)
     elif part == "intorigin":
         fails, _ = intorigin_case(case, verbose=True)
+    elif part == "maskcontent":
+        print(f"  mask {case['mask']} scan {case['scan']} det {case['det']} data {case['kind']} (every mask dtype / order, all paths and batch sizes re-run)")
+        fails, _, _ = maskcontent_case(case, verbose=True)
     elif part == "history":
         hist = case["history"]
         fails = []
